@@ -111,7 +111,7 @@ def main():
         ],
         "checks": checks,
         "not_applicable": na,
-        "notes": "All checks rebuild from /repo's working tree (go build with replace => /repo). Exit 0 = held, 1 = VIOLATION line, 2 = harness error (CHECK-ERROR). Genuine defects found are listed in /verif/known_findings.json: 15 fixed (fix: commits in /repo), 1 known (C05, an `as` name from the generated __subquery namespace; the check prints KNOWN-FINDING and exits 0). Seeded changes used to test the checks: /verif/seeded (192) and /verif/mutants; tools/seeds-regress.sh and mutants/run re-run them.",
+        "notes": "All checks rebuild from /repo's working tree (go build with replace => /repo). Exit 0 = held, 1 = VIOLATION line, 2 = harness error (CHECK-ERROR). Genuine defects found are listed in /verif/known_findings.json: 15 fixed (fix: commits in /repo), 1 known (C05, an `as` name from the generated __subquery namespace; the check prints KNOWN-FINDING and exits 0). Seeded changes used to test the checks: /verif/seeded (224) and /verif/mutants; tools/seeds-regress.sh and mutants/run re-run them.",
     }
     json.dump(m, open("/verif/MANIFEST.json", "w"), indent=1)
     open("/verif/MANIFEST.json", "a").write("\n")
